@@ -45,7 +45,9 @@ RULE = (
 )
 BOUNDS = {
     "quick": "part A: 13 fixtures (incl. ephemerides with a linear and a 2- / 3-point Lagrange interpolator whose table ends where the ranges of part B end) x 3 starts x 6 spans x 3 steps x 10 request forms through iter() (non-distinct combinations not generated), forms "
-    "{Date stop, timedelta stop} through ephem(), ephemeris() and (Sgp4, Kepler, KeplerNum) Station.visibility(); part E: 4 ephemerides (Lagrange 8 / 3 / 2, linear) x 12 requests touching exactly "
+    "{Date stop, timedelta stop} through ephem(), ephemeris() and (Sgp4, Kepler, KeplerNum) Station.visibility(); part X: two orbits created by propagator NAME used interleaved (zip, propagate inside an iteration, "
+    "alternating next()), the initial orbit given in mean-element / TLE form and converted in place between iterations, requests dated in TT / TAI / GPS; "
+    "part E: 4 ephemerides (Lagrange 8 / 3 / 2, linear) x 12 requests touching exactly "
     "the first / last recorded date; part P: 9 fixtures x k = +-1..7 steps from the epoch (propagate target, "
     "iteration start); part B: all histories of depth <= 3 over 9 operations (820 per orbit propagator, 9 fixtures) / 11 operations (1 464, ephemeris)",
     "thorough": "part A: all forms through iter(), ephemeris() and ephem(); part B: depth <= 4 for Sgp4, Kepler, KeplerNum, CW with maneuvers "
@@ -710,6 +712,143 @@ E_REQS = ["propagate-first", "propagate-last", "iter-native", "iter-native-to-la
 
 
 # ---------------------------------------------------------------------------
+# part X : interleaved use of two orbits created by propagator NAME, in-place change of the INITIAL orbit between iterations,
+#          request dates labelled in another time scale
+
+X_NAMED = ["Sgp4", "Kepler", "J2", "NonePropagator"]
+X_MEANFORM = {"Kepler": "keplerian_mean", "J2": "keplerian_mean", "Sgp4": "TLE", "KeplerNum": "keplerian_mean"}
+X_SCALE = ["Sgp4", "Kepler", "J2", "NonePropagator", "KeplerNum", "CW", "Ephem", "EphemLin"]
+
+
+def _named_pair(pname):
+    """Two different orbits, each created with the propagator given by NAME (a string)."""
+    from beyond.orbits import Orbit
+    from mc.ref import twobody
+
+    if pname == "Sgp4":
+        from beyond.io.tle import Tle
+
+        o1, o2 = Tle(ISS).orbit(), Tle(ISS).orbit()
+        o2[4] = o2[4] + 0.3
+        return o1, o2
+    mu = _G["mu"]
+    o1 = Orbit(twobody.kep_to_cart(*MEO, mu), _G["date0"], "cartesian", "EME2000", pname)
+    o2 = Orbit(twobody.kep_to_cart(2.0e7, 0.05, 0.5, 2.0, 1.5, 1.0, mu), _G["date0"], "cartesian", "EME2000", pname)
+    return o1, o2
+
+
+def _cart(o):
+    return A(o if str(o.form) == "cartesian" else o.copy(form="cartesian"))
+
+
+@guarded
+def check_extra(case, t):
+    from datetime import timedelta
+
+    kind, pname = case["kind"], case["prop"]
+    key = ("X", kind, pname, case.get("variant"))
+    t.ev(key)
+    t.state(key)
+    step = timedelta(microseconds=DELTA)
+    site = "Ephem" if pname in EPHEM_VARIANTS else pname
+    if kind == "named-pair":
+        variant = case["variant"]
+        clause = "each yielded state equals a direct propagation of ITS orbit, whatever other orbits do in between"
+        epoch = _named_pair(pname)[0].date
+        at = lambda u: epoch + timedelta(microseconds=u)
+        us = lambda d: (lambda x: x.days * 86400_000_000 + x.seconds * 1_000_000 + x.microseconds)(d - epoch)
+        want = []
+        for i in (0, 1):
+            want.append({u: _cart(_named_pair(pname)[i].propagate(at(u))) for u in range(0, 8 * DELTA + 1, DELTA)})
+        o1, o2 = _named_pair(pname)
+        got = [[], []]
+        if variant == "zip":
+            for a, b in zip(o1.iter(start=at(0), stop=at(8 * DELTA), step=step), o2.iter(start=at(0), stop=at(8 * DELTA), step=step)):
+                got[0].append(a)
+                got[1].append(b)
+        elif variant == "propagate-inside-iter":
+            for a in o1.iter(start=at(0), stop=at(8 * DELTA), step=step):
+                got[0].append(a)
+                got[1].append(o2.propagate(a.date))
+        else:  # alternate next() by hand, the second iterator created after the first has started
+            g1 = o1.iter(start=at(0), stop=at(8 * DELTA), step=step)
+            got[0].append(next(g1))
+            g2 = o2.iter(start=at(0), stop=at(8 * DELTA), step=step)
+            for a in g1:
+                got[1].append(next(g2))
+                got[0].append(a)
+            got[1].extend(g2)
+        t.trans(len(got[0]) + len(got[1]))
+        for i in (0, 1):
+            dates = [us(o.date) for o in got[i]]
+            if dates != sorted(want[i]):
+                t.fail(f"{pname}/interleaved-orbits-by-name/dates", clause, case, [u * 1e-6 for u in sorted(want[i])], [u * 1e-6 for u in dates], f"{pname} {variant}: orbit {i+1}")
+                return
+            worst = max(float(np.linalg.norm((_cart(o) - want[i][u])[:3])) for o, u in zip(got[i], dates))
+            if not t.margin("X: interleaved orbits created by name vs direct propagate / 1e-6 m", worst, 1e-6):
+                t.fail(f"{pname}/interleaved-orbits-by-name/state-of-the-other-orbit", clause, case, "own states", worst,
+                       f"{pname} {variant}: orbit {i+1} yields states {worst:.3e} m from its own direct propagation")
+                return
+    elif kind == "initial-orbit-converted-in-place":
+        clause = "results are a function of the (physical) initial orbit: converting it in place between two uses changes nothing"
+        fx = Fix(pname)
+        form0 = X_MEANFORM[pname]
+        if str(fx.obj.form) != form0:
+            fx.obj.form = form0  # the fixture's initial orbit is GIVEN in the mean-element / TLE form
+        dates = [fx.at(u) for u in range(0, 8 * DELTA + 1, DELTA)]
+        first = [_cart(o) for o in fx.obj.iter(dates=list(dates))] if not fx.numerical else [_cart(o) for o in fx.obj.iter(start=dates[0], stop=dates[-1])]
+        for newform in case["variant"]:
+            fx.obj.form = newform
+        second = [_cart(o) for o in fx.obj.iter(dates=list(dates))] if not fx.numerical else [_cart(o) for o in fx.obj.iter(start=dates[0], stop=dates[-1])]
+        third = [_cart(fx.obj.propagate(d)) for d in dates[1::3]]
+        t.trans(len(first) + len(second) + len(third))
+        ref = [direct(pname, fx.us(d))[0] for d in dates]
+        if any(r is None for r in ref) or len(first) != len(ref) or len(second) != len(ref):
+            t.fail(f"{site}/initial-orbit-converted-in-place/stream", clause, case, len(ref), [len(first), len(second)], f"{pname}")
+            return
+        tol = fx.tol + 1e-5  # + element <-> cartesian conversions of the initial orbit (C01's subject)
+        w1 = max(float(np.linalg.norm((a - b)[:3])) for a, b in zip(first, ref))
+        w2 = max(float(np.linalg.norm((a - b)[:3])) for a, b in zip(second + third, ref + ref[1::3]))
+        t.margin("X: initial orbit given in mean-element / TLE form vs direct propagate / tol", w1, tol)
+        if not t.margin("X: after converting the initial orbit in place vs direct propagate / tol", max(w1, w2), tol):
+            t.fail(f"{site}/initial-orbit-converted-in-place/state", clause, case, "unchanged states", dict(before=w1, after=w2),
+                   f"{pname}: initial orbit given as {form0}, converted in place to {case['variant']}: deviation before {w1:.3e} m, after {w2:.3e} m (tol {tol:.1e})")
+    elif kind == "dates-in-another-scale":
+        clause = "a date designates an instant whatever the time scale it is labelled in"
+        scale = case["variant"]
+        fx = Fix(pname)
+        conv = lambda u: fx.at(u).change_scale(scale)
+        lo, hi = DELTA, 9 * DELTA
+        got = list(fx.obj.iter(start=conv(lo), stop=conv(hi), step=step))
+        got.append(fx.obj.propagate(conv(4 * DELTA + 7_000_000)))
+        t.trans(len(got))
+        dates = [fx.us(o.date) for o in got]
+        exp = list(range(lo, hi + 1, DELTA)) + [4 * DELTA + 7_000_000]
+        if dates != exp:
+            t.fail(f"{site}/dates-in-another-scale/dates", clause, case, [u * 1e-6 for u in exp], [u * 1e-6 for u in dates], f"{pname} scale {scale}")
+            return
+        worst = 0.0
+        for o, u in zip(got, dates):
+            r, why = direct(pname, u)
+            if r is None:
+                t.fail(f"{site}/direct-propagate-{why.split(':')[0]}", "a direct propagation to a requested date returns the state of that date", case, u * 1e-6, why)
+                return
+            worst = max(worst, float(np.linalg.norm((_cart(o) - r)[:3])))
+        if not t.margin("X: request dated in another time scale vs the same instants in UTC / tol", worst, fx.tol):
+            t.fail(f"{site}/dates-in-another-scale/state", clause, case, "same states", worst, f"{pname}: dates labelled {scale}: {worst:.3e} m (tol {fx.tol:.1e})")
+    else:
+        raise ValueError(kind)
+
+
+def extra_cases():
+    c = [dict(part="X", kind="named-pair", prop=p, variant=v) for p in X_NAMED for v in ("zip", "propagate-inside-iter", "alternate-next")]
+    c += [dict(part="X", kind="initial-orbit-converted-in-place", prop=p, variant=v) for p in X_MEANFORM
+          for v in (["cartesian"], ["keplerian"], ["cartesian", "keplerian_mean"], ["spherical", "cartesian"])]
+    c += [dict(part="X", kind="dates-in-another-scale", prop=p, variant=sc) for p in X_SCALE for sc in ("TT", "TAI", "GPS")]
+    return c
+
+
+# ---------------------------------------------------------------------------
 # part B
 
 OPS_ORBIT = ["p1", "p2", "it1", "ab2", "itL", "itD", "eph", "q1", "mut"]
@@ -1002,6 +1141,9 @@ def units(tier, seed):
                     u.append((cfg, dict(part="A", cases=cases)))
     for pname in P_PROPS:
         u.append((cfg, dict(part="P", cases=[dict(part="P", prop=pname, k=k) for k in range(-7, 8) if k])))
+    xc = extra_cases()
+    for i in range(0, len(xc), 12):
+        u.append((cfg, dict(part="X", cases=xc[i : i + 12])))
     u.append((cfg, dict(part="E", cases=[dict(part="E", prop=pn, req=r) for pn in EPHEM_VARIANTS for r in E_REQS])))
     for pname in PROPS:
         # thorough: depth 4 for one fixture of each kind, depth 3 for their variants (J2, NonePropagator, the second/third KeplerNum, plain CW)
@@ -1032,6 +1174,9 @@ def run_unit(p, t):
     elif p["part"] == "E":
         for c in p["cases"]:
             check_ephem_edges(c, t)
+    elif p["part"] == "X":
+        for c in p["cases"]:
+            check_extra(c, t)
     else:
         pname, prefix, depth = p["prop"], p["prefix"], p["depth"]
 
@@ -1051,5 +1196,7 @@ def replay(case, t):
         check_near_epoch(case, t)
     elif case["part"] == "E":
         check_ephem_edges(case, t)
+    elif case["part"] == "X":
+        check_extra(case, t)
     else:
         check_history(case, t)
